@@ -140,7 +140,9 @@ def scanDec (z : Dec) (s : List Nat) (base : Nat) : Except ScanErr (Dec Ã— Nat Ã
             else
               let p := pow2 (prec + DW) exp2.natAbs
               let r := if exp2 < 0 then (quo z1 z1 p true false).1 else (mul z1 z1 p true false).1
-              .ok (r, b, s3)
+              -- as repaired (7th fix of the Parse family): a binary exponent that takes the value out of the
+              -- exponent range is the same error as a decimal exponent out of range
+              if r.form != .finite then .error .expOverflow else .ok (r, b, s3)
 
 /-- `z.Parse(s, base)` (as repaired: a nil result on every error). -/
 def parse (z : Dec) (s : List Nat) (base : Nat) : Except ScanErr (Dec Ã— Nat) :=
